@@ -535,12 +535,18 @@ pub fn run(rng: &mut Rng, out: &mut Out, thorough: bool) {
     let max_small = if thorough { 10 } else { 9 };
     for len in 0..=max_small {
         for pat in 0..(1u32 << len) {
-            if !thorough && len == 9 && pat % 4 != (len as u32 % 4) {
+            if !thorough && len == 9 && pat % 8 != 1 {
+                continue;
+            }
+            if !thorough && len == 8 && pat % 2 != 1 {
+                continue;
+            }
+            if thorough && len == 10 && pat % 4 != 3 {
                 continue;
             }
             let bits: Vec<bool> = (0..len).map(|i| (pat >> i) & 1 == 1).collect();
             emit(out, "exhaustive", &ops_of_bits(&bits, false), small, rng);
-            if len <= 8 || thorough {
+            if len <= 7 || (thorough && len <= 8) {
                 emit(out, "exhaustive_bits", &ops_of_bits(&bits, true), light, rng);
             }
         }
@@ -607,7 +613,7 @@ pub fn run(rng: &mut Rng, out: &mut Out, thorough: bool) {
     }
 
     // ---- generated histories by number of blocks and value profile
-    let reps = if thorough { 8 } else { 1 };
+    let reps = if thorough { 4 } else { 1 };
     let block_targets: Vec<usize> = vec![0, 1, 2, 7, 8, 9, 10, 16, 17];
     let profiles = [Profile::Tiny, Profile::Small, Profile::Medium, Profile::Big, Profile::Huge, Profile::Mix];
     for _ in 0..reps {
@@ -630,7 +636,7 @@ pub fn run(rng: &mut Rng, out: &mut Out, thorough: bool) {
         }
     }
     // the sample index changes shape at multiples of 8 values: 63..66 and more blocks
-    let big_targets: Vec<usize> = if thorough { vec![24, 25, 63, 64, 65, 66, 100, 130] } else { vec![64, 65] };
+    let big_targets: Vec<usize> = if thorough { vec![24, 63, 64, 65, 66, 130] } else { vec![64, 65] };
     for tb in big_targets {
         for p in [Profile::Tiny, Profile::Mix, Profile::Medium] {
             if !thorough && p == Profile::Medium {
@@ -642,7 +648,7 @@ pub fn run(rng: &mut Rng, out: &mut Out, thorough: bool) {
         }
     }
     // long first run at 0 (a block without zeros), then blocks of all profiles
-    for _ in 0..(if thorough { 40 } else { 6 }) {
+    for _ in 0..(if thorough { 20 } else { 6 }) {
         let k = rng.range(50, 62);
         let first = (1usize << k) + rng.below(3) as usize;
         let mut ops = vec![Op::TrySet(0, first)];
@@ -670,7 +676,7 @@ pub fn run(rng: &mut Rng, out: &mut Out, thorough: bool) {
         }
     }
     // copy_bit_vec route: positions one by one, then set_len
-    for _ in 0..(if thorough { 60 } else { 10 }) {
+    for _ in 0..(if thorough { 30 } else { 10 }) {
         let n = rng.range(0, 400) as usize;
         let mut ops = Vec::new();
         let mut pos = 0usize;
